@@ -1470,6 +1470,7 @@ func (p *Printer) command(cmd Command, redirs []*Redirect) (startRedirs int) {
 			p.spacedString("-p", cmd.Pos())
 		}
 		if cmd.Stmt != nil {
+			p.comments(cmd.Stmt.Comments...)
 			p.stmt(cmd.Stmt)
 		}
 	case *CoprocClause:
@@ -1479,6 +1480,7 @@ func (p *Printer) command(cmd Command, redirs []*Redirect) (startRedirs int) {
 			p.word(cmd.Name)
 		}
 		p.space()
+		p.comments(cmd.Stmt.Comments...)
 		p.stmt(cmd.Stmt)
 	case *LetClause:
 		p.spacedString("let", cmd.Pos())
